@@ -982,3 +982,294 @@ end C06
 #print axioms C04T.enc_iff_tree
 #print axioms C06.enc_iff_onecycle
 #print axioms C06.passed_iff_visited
+
+/-
+C05 — lemma over the emission contract of `_division_connected` (rank / spanning-forest encoding, cspuz/graph.py).
+
+Schema posted by the function (contracts/c05_emission.py), for labels d(v) in 0..k-1:
+  rank(v) in [0, n-1], is_root(v), spanning_forest(e);
+  for every edge e:      sf(e) -> d(src e) = d(dst e) and rank(src e) ≠ rank(dst e);
+  for every vertex i:    #{e at i : sf(e) and rank(other end) < rank(i)} = (0 if is_root(i) else 1);
+  for every label l:     #{i : is_root(i) and d(i) = l} = 1     (≤ 1 with allow_empty_group);
+  for every listed root: d(r) = position in the list, and is_root(r).
+Theorem: satisfiable in (rank, is_root, sf) exactly when every label class induces a connected subgraph, every label
+is used unless allow_empty_group, and every listed root carries the label of its position.
+-/
+namespace C05
+
+open C04T (adjE)
+
+attribute [local instance] Classical.propDecidable
+
+variable {n m k : ℕ}
+
+/-- entries of row i that are forest edges leading to a smaller rank -/
+noncomputable def lowerF (src dst : Fin m → Fin n) (sf : Fin m → Prop) (rank : Fin n → ℕ) (i : Fin n) : Finset (Fin m) :=
+  univ.filter (fun e => (src e = i ∨ dst e = i) ∧ sf e ∧ rank (C09.other src dst e i) < rank i)
+
+def Enc (src dst : Fin m → Fin n) (d : Fin n → Fin k) (ro : Fin k → Option (Fin n)) (allowEmpty : Prop) : Prop :=
+  ∃ (rank : Fin n → ℕ) (isRoot : Fin n → Prop) (sf : Fin m → Prop),
+    (∀ v, rank v < n) ∧
+    (∀ e, sf e → d (src e) = d (dst e) ∧ rank (src e) ≠ rank (dst e)) ∧
+    (∀ i, (lowerF src dst sf rank i).card = if isRoot i then 0 else 1) ∧
+    (∀ l, (¬ allowEmpty → (univ.filter (fun i => isRoot i ∧ d i = l)).card = 1) ∧
+          (allowEmpty → (univ.filter (fun i => isRoot i ∧ d i = l)).card ≤ 1)) ∧
+    (∀ l r, ro l = some r → d r = l ∧ isRoot r)
+
+def Spec (src dst : Fin m → Fin n) (d : Fin n → Fin k) (ro : Fin k → Option (Fin n)) (allowEmpty : Prop) : Prop :=
+  (∀ l, C04.Connected (adjE src dst) (fun v => d v = l)) ∧ (¬ allowEmpty → ∀ l, ∃ v, d v = l) ∧
+    (∀ l r, ro l = some r → d r = l)
+
+/-- the end point with the larger rank is determined by the edge -/
+theorem hi_unique (src dst : Fin m → Fin n) (rank : Fin n → ℕ) (e : Fin m) (x i : Fin n)
+    (hx : src e = x ∨ dst e = x) (hi : src e = i ∨ dst e = i)
+    (h1 : rank (C09.other src dst e x) < rank x) (h2 : rank (C09.other src dst e i) < rank i) : x = i := by
+  by_contra hne
+  unfold C09.other at h1 h2
+  rcases hx with hx | hx <;> rcases hi with hi | hi
+  · exact hne (hx.symm.trans hi)
+  · have h3 : ¬ src e = i := fun h => hne (hx.symm.trans h)
+    rw [if_pos hx] at h1
+    rw [if_neg h3] at h2
+    rw [hi] at h1; rw [hx] at h2; omega
+  · have h3 : ¬ src e = x := fun h => hne (h.symm.trans hi)
+    rw [if_neg h3] at h1
+    rw [if_pos hi] at h2
+    rw [hi] at h1; rw [hx] at h2; omega
+  · exact hne (hx.symm.trans hi)
+
+/-- both end points of an edge, seen from one of them -/
+theorem ends (src dst : Fin m → Fin n) (e : Fin m) (x : Fin n) (hx : src e = x ∨ dst e = x) :
+    (src e = x ∧ dst e = C09.other src dst e x) ∨ (dst e = x ∧ src e = C09.other src dst e x) := by
+  unfold C09.other
+  by_cases h : src e = x
+  · left; exact ⟨h, by rw [if_pos h]⟩
+  · right
+    rcases hx with hx | hx
+    · exact absurd hx h
+    · exact ⟨hx, by rw [if_neg h]⟩
+
+theorem enc_spec (src dst : Fin m → Fin n) (d : Fin n → Fin k) (ro : Fin k → Option (Fin n)) (allowEmpty : Prop)
+    (h : Enc src dst d ro allowEmpty) : Spec src dst d ro allowEmpty := by
+  obtain ⟨rank, isRoot, sf, _, hsf, hcnt, hlab, hro⟩ := h
+  have hle : ∀ l, (univ.filter (fun i => isRoot i ∧ d i = l)).card ≤ 1 := by
+    intro l
+    by_cases ha : allowEmpty
+    · exact (hlab l).2 ha
+    · exact le_of_eq ((hlab l).1 ha)
+  have hroot : ∀ t i, rank i = t → ∃ r, isRoot r ∧ d r = d i ∧ C04.Reach (adjE src dst) (fun v => d v = d i) i r := by
+    intro t
+    induction t using Nat.strong_induction_on with
+    | _ t ih =>
+      intro i ht
+      by_cases hr : isRoot i
+      · exact ⟨i, hr, rfl, Relation.ReflTransGen.refl⟩
+      · have hc := hcnt i
+        rw [if_neg hr] at hc
+        obtain ⟨e, he⟩ := card_pos.mp (by omega : 0 < (lowerF src dst sf rank i).card)
+        simp only [lowerF, mem_filter, mem_univ, true_and] at he
+        obtain ⟨hat, hsfe, hlt⟩ := he
+        have hdj : d (C09.other src dst e i) = d i := by
+          have := (hsf e hsfe).1
+          rcases ends src dst e i hat with ⟨h1, h2⟩ | ⟨h1, h2⟩
+          · rw [← h2, ← this, h1]
+          · rw [← h2, this, h1]
+        obtain ⟨r, hr1, hr2, hr3⟩ := ih (rank (C09.other src dst e i)) (by omega) (C09.other src dst e i) rfl
+        rw [hdj] at hr2 hr3
+        exact ⟨r, hr1, hr2, Relation.ReflTransGen.head ⟨C04T.adj_other src dst e i hat, rfl, hdj⟩ hr3⟩
+  refine ⟨?_, ?_, ?_⟩
+  · intro l a b ha hb
+    obtain ⟨ra, hra1, hra2, hra3⟩ := hroot _ a rfl
+    obtain ⟨rb, hrb1, hrb2, hrb3⟩ := hroot _ b rfl
+    rw [ha] at hra2 hra3
+    rw [hb] at hrb2 hrb3
+    have hma : ra ∈ univ.filter (fun i => isRoot i ∧ d i = l) := by simp [hra1, hra2]
+    have hmb : rb ∈ univ.filter (fun i => isRoot i ∧ d i = l) := by simp [hrb1, hrb2]
+    have : ra = rb := card_le_one.mp (hle l) ra hma rb hmb
+    subst this
+    exact Relation.ReflTransGen.trans hra3 (C04.reach_symm (adjE src dst) _ (C04T.adjE_symm src dst) hrb3)
+  · intro ha l
+    have := (hlab l).1 ha
+    obtain ⟨v, hv⟩ := card_pos.mp (by omega : 0 < (univ.filter (fun i => isRoot i ∧ d i = l)).card)
+    simp only [mem_filter, mem_univ, true_and] at hv
+    exact ⟨v, hv.2⟩
+  · intro l r hr
+    exact (hro l r hr).1
+
+/-- per label: a root predicate, ranks and forest edges for the class of `l` -/
+theorem class_data (src dst : Fin m → Fin n) (d : Fin n → Fin k) (ro : Fin k → Option (Fin n)) (l : Fin k)
+    (hconn : C04.Connected (adjE src dst) (fun v => d v = l)) (hro : ∀ r, ro l = some r → d r = l) :
+    ∃ (R : Fin n → Prop) (rk : Fin n → ℕ) (F : Fin m → Prop),
+      (∀ v, R v → d v = l) ∧ (∀ a b, R a → R b → a = b) ∧ ((∃ v, d v = l) → ∃ r, R r) ∧ (∀ r, ro l = some r → R r) ∧
+      (∀ v, d v = l → rk v < n) ∧
+      (∀ e, F e → d (src e) = l ∧ d (dst e) = l ∧ rk (src e) ≠ rk (dst e)) ∧
+      (∀ i, d i = l → (lowerF src dst F rk i).card = if R i then 0 else 1) := by
+  by_cases hne : ∃ v, d v = l
+  · -- the root: the listed one, else any member
+    have hr0 : ∃ r, d r = l ∧ ∀ r', ro l = some r' → r' = r := by
+      cases hrl : ro l with
+      | none => obtain ⟨v, hv⟩ := hne; exact ⟨v, hv, fun r' h => by simp at h⟩
+      | some r' => exact ⟨r', hro r' hrl, fun r'' h => by simpa using h.symm⟩
+    obtain ⟨r, hr, hrl⟩ := hr0
+    have hG0 : C04.Good (adjE src dst) (fun v => d v = l) r {r} (fun _ => 0) := by
+      refine ⟨mem_singleton_self r, ?_, ?_, ?_⟩
+      · intro x hx; rw [mem_singleton.mp hx]; exact hr
+      · intro x _; simp
+      · intro x hx hxr; exact absurd (mem_singleton.mp hx) hxr
+    obtain ⟨X, rank, hG, hall⟩ := C04.grow (adjE src dst) (fun v => d v = l) (C04T.adjE_symm src dst) hconn r hr _ {r}
+      (fun _ => 0) rfl hG0
+    have hXn : X.card ≤ n := by
+      have := card_le_univ X
+      simpa using this
+    -- a parent edge for every member but the root
+    have hpar : ∀ x, ∃ o : Option (Fin m), (d x = l ∧ x ≠ r) →
+        ∃ e, o = some e ∧ (src e = x ∨ dst e = x) ∧ d (C09.other src dst e x) = l ∧
+          rank (C09.other src dst e x) < rank x := by
+      intro x
+      by_cases h : d x = l ∧ x ≠ r
+      · obtain ⟨y, hy, ⟨e, he⟩, hlt⟩ := hG.2.2.2 x (hall x h.1) h.2
+        have hyl : d y = l := hG.2.1 y hy
+        have hat : src e = x ∨ dst e = x := by
+          rcases he with he | he
+          · exact Or.inl he.1
+          · exact Or.inr he.2
+        have hoth : C09.other src dst e x = y := by
+          unfold C09.other
+          rcases he with he | he
+          · rw [if_pos he.1]; exact he.2
+          · by_cases hsx : src e = x
+            · rw [if_pos hsx, he.2, ← hsx, he.1]
+            · rw [if_neg hsx]; exact he.1
+        exact ⟨some e, fun _ => ⟨e, rfl, hat, by rw [hoth]; exact hyl, by rw [hoth]; exact hlt⟩⟩
+      · exact ⟨none, fun h' => absurd h' h⟩
+    choose par hpar2 using hpar
+    refine ⟨fun v => v = r, rank, fun e => ∃ x, d x = l ∧ x ≠ r ∧ par x = some e, ?_, ?_, ?_, ?_, ?_, ?_, ?_⟩
+    · intro v hv; rw [hv]; exact hr
+    · intro a b ha hb; rw [ha, hb]
+    · intro _; exact ⟨r, rfl⟩
+    · intro r' h; exact hrl r' h
+    · intro v hv
+      have := hG.2.2.1 v (hall v hv)
+      omega
+    · rintro e ⟨x, hxl, hxr, hpx⟩
+      obtain ⟨e', he', hat, hol, hlt⟩ := hpar2 x ⟨hxl, hxr⟩
+      have : e' = e := by rw [hpx] at he'; exact (Option.some.inj he').symm
+      subst this
+      rcases ends src dst e' x hat with ⟨h1, h2⟩ | ⟨h1, h2⟩
+      · refine ⟨h1 ▸ hxl, h2 ▸ hol, ?_⟩
+        rw [h1, h2]; omega
+      · refine ⟨h2 ▸ hol, h1 ▸ hxl, ?_⟩
+        rw [h1, h2]; omega
+    · intro i hil
+      by_cases hir : i = r
+      · rw [if_pos hir]
+        rw [card_eq_zero]
+        ext e
+        simp only [lowerF, mem_filter, mem_univ, true_and, notMem_empty, iff_false]
+        rintro ⟨hat, ⟨x, hxl, hxr, hpx⟩, hlt⟩
+        obtain ⟨e', he', hat', _, hlt'⟩ := hpar2 x ⟨hxl, hxr⟩
+        have : e' = e := by rw [hpx] at he'; exact (Option.some.inj he').symm
+        subst this
+        have := hi_unique src dst rank e' x i hat' hat hlt' hlt
+        exact hxr (this.trans hir)
+      · rw [if_neg hir]
+        obtain ⟨e0, he0, hat0, _, hlt0⟩ := hpar2 i ⟨hil, hir⟩
+        rw [card_eq_one]
+        refine ⟨e0, ?_⟩
+        ext e
+        simp only [lowerF, mem_filter, mem_univ, true_and, mem_singleton]
+        constructor
+        · rintro ⟨hat, ⟨x, hxl, hxr, hpx⟩, hlt⟩
+          obtain ⟨e', he', hat', _, hlt'⟩ := hpar2 x ⟨hxl, hxr⟩
+          have : e' = e := by rw [hpx] at he'; exact (Option.some.inj he').symm
+          subst this
+          have hxi := hi_unique src dst rank e' x i hat' hat hlt' hlt
+          subst hxi
+          rw [he0] at hpx
+          exact (Option.some.inj hpx).symm
+        · intro he
+          subst he
+          exact ⟨hat0, ⟨i, hil, hir, he0⟩, hlt0⟩
+  · -- an unused label
+    refine ⟨fun _ => False, fun _ => 0, fun _ => False, ?_, ?_, ?_, ?_, ?_, ?_, ?_⟩
+    · intro v hv; exact absurd hv id
+    · intro a b ha; exact absurd ha id
+    · intro h; exact absurd h hne
+    · intro r h; exact absurd ⟨r, hro r h⟩ hne
+    · intro v hv; exact absurd ⟨v, hv⟩ hne
+    · intro e he; exact absurd he id
+    · intro i hi; exact absurd ⟨i, hi⟩ hne
+
+theorem spec_enc (src dst : Fin m → Fin n) (d : Fin n → Fin k) (ro : Fin k → Option (Fin n)) (allowEmpty : Prop)
+    (h : Spec src dst d ro allowEmpty) : Enc src dst d ro allowEmpty := by
+  obtain ⟨hconn, hused, hroots⟩ := h
+  have hdata := fun l => class_data src dst d ro l (hconn l) (hroots l)
+  choose R rk F hR1 hR2 hR3 hR4 hrk hF hcnt using hdata
+  refine ⟨fun i => rk (d i) i, fun i => R (d i) i, fun e => F (d (src e)) e, ?_, ?_, ?_, ?_, ?_⟩
+  · intro v; exact hrk (d v) v rfl
+  · intro e he
+    obtain ⟨h1, h2, h3⟩ := hF (d (src e)) e he
+    refine ⟨h2.symm, ?_⟩
+    simp only
+    rw [h2]; exact h3
+  · intro i
+    have hset : lowerF src dst (fun e => F (d (src e)) e) (fun i => rk (d i) i) i = lowerF src dst (F (d i)) (rk (d i)) i := by
+      ext e
+      simp only [lowerF, mem_filter, mem_univ, true_and]
+      constructor
+      · rintro ⟨hat, hFe, hlt⟩
+        obtain ⟨h1, h2, _⟩ := hF (d (src e)) e hFe
+        have hsi : d (src e) = d i := by
+          rcases hat with h | h
+          · rw [h]
+          · rw [← h]; exact h2.symm
+        have hoi : d (C09.other src dst e i) = d i := by
+          rcases ends src dst e i hat with ⟨_, h4⟩ | ⟨_, h4⟩
+          · rw [← h4, h2, hsi]
+          · rw [← h4, hsi]
+        refine ⟨hat, hsi ▸ hFe, ?_⟩
+        rw [hoi] at hlt; exact hlt
+      · rintro ⟨hat, hFe, hlt⟩
+        obtain ⟨h1, h2, _⟩ := hF (d i) e hFe
+        have hoi : d (C09.other src dst e i) = d i := by
+          rcases ends src dst e i hat with ⟨_, h4⟩ | ⟨_, h4⟩
+          · rw [← h4]; exact h2
+          · rw [← h4]; exact h1
+        refine ⟨hat, h1 ▸ hFe, ?_⟩
+        rw [hoi]; exact hlt
+    rw [hset]
+    exact hcnt (d i) i rfl
+  · intro l
+    have hset : univ.filter (fun i => R (d i) i ∧ d i = l) = univ.filter (fun i => R l i) := by
+      ext i
+      simp only [mem_filter, mem_univ, true_and]
+      constructor
+      · rintro ⟨h1, h2⟩; rw [h2] at h1; exact h1
+      · intro h1
+        have := hR1 l i h1
+        exact ⟨this ▸ h1, this⟩
+    rw [hset]
+    have hle : (univ.filter (fun i => R l i)).card ≤ 1 := by
+      apply card_le_one.mpr
+      intro a ha b hb
+      exact hR2 l a b (mem_filter.mp ha).2 (mem_filter.mp hb).2
+    refine ⟨fun ha => ?_, fun _ => hle⟩
+    obtain ⟨r, hr⟩ := hR3 l (hused ha l)
+    have : 0 < (univ.filter (fun i => R l i)).card := card_pos.mpr ⟨r, by simp [hr]⟩
+    omega
+  · intro l r hr
+    have h1 := hroots l r hr
+    refine ⟨h1, ?_⟩
+    simp only
+    rw [h1]; exact hR4 l r hr
+
+/-- the constraints posted by `_division_connected` (rank / spanning-forest encoding) are satisfiable exactly when every
+    label class is connected, every label is used (unless empty groups are allowed) and the listed roots carry the
+    label of their position -/
+theorem enc_iff_spec (src dst : Fin m → Fin n) (d : Fin n → Fin k) (ro : Fin k → Option (Fin n)) (allowEmpty : Prop) :
+    Enc src dst d ro allowEmpty ↔ Spec src dst d ro allowEmpty :=
+  ⟨enc_spec src dst d ro allowEmpty, spec_enc src dst d ro allowEmpty⟩
+
+end C05
+
+#print axioms C05.enc_iff_spec
